@@ -538,3 +538,42 @@ func TestReplayC11CompiledOnly(t *testing.T) {
 		}
 	}
 }
+
+// Input shapes and configurations at the edge of the ordinary (added after the sixth round of seeded changes): one validation
+// with many quantified constraints (beyond the letter names of the variable generator), and a report configuration without
+// creation time together with NO validation configuration (nil is all a caller has to pass when no time is asked for).
+func TestReplayC11Shapes(t *testing.T) {
+	var cl c11Caller
+	for _, width := range []int{23, 24, 25, 30} {
+		p := c11Head + "violation:\n  - wide\nvalidations:\n  wide:\n    message: m\n    targetClass: ex.Thing\n    propertyConstraints:\n"
+		for i := 0; i < width; i++ {
+			p += fmt.Sprintf("      ex.p%d:\n        nested:\n          propertyConstraints:\n            ex.name:\n              minCount: 1\n", i)
+		}
+		for mode := 0; mode < c11Modes; mode++ {
+			obs := cl.observe(mode, func(ch *chan e.Event) error {
+				_, err := Validate(p, c11DataConforming, false, ch)
+				return err
+			})
+			c11Judge(t, fmt.Sprintf("Validate, one validation with %d nested constraints, conforming data", width), mode, obs, c11StProfile, c11StReport, c11Success, false)
+		}
+	}
+	compiled, err := CompileProfile(c11ProfileValid, false, nil)
+	if err != nil {
+		t.Errorf("C11 harness: the valid profile does not compile: %v", err)
+		return
+	}
+	for _, d := range c11Data[:2] {
+		for mode := 0; mode < c11Modes; mode++ {
+			obs := cl.observe(mode, func(ch *chan e.Event) error {
+				_, err := ValidateWithConfiguration(c11ProfileValid, d.text, false, ch, nil, c11ReportConfig())
+				return err
+			})
+			c11Judge(t, "ValidateWithConfiguration without a validation configuration (no creation time asked for), "+d.name, mode, obs, c11StProfile, c11StReport, c11Success, false)
+			obs = cl.observe(mode, func(ch *chan e.Event) error {
+				_, err := ValidateCompiledWithConfiguration(compiled, d.text, false, ch, nil, c11ReportConfig())
+				return err
+			})
+			c11Judge(t, "ValidateCompiledWithConfiguration without a validation configuration (no creation time asked for), "+d.name, mode, obs, c11StDataParsing, c11StReport, c11Success, false)
+		}
+	}
+}
